@@ -488,7 +488,9 @@ class RedfieldRelaxationTensor(RelaxationTensor):
         """    
         
         Na = self.Hamiltonian.data.shape[0]
-        Nb = self.SystemBathInteraction.N
+        # the number of operators (a Lindblad form may have been created 
+        # without a system-bath interaction)
+        Nb = Km.shape[0]
         
         RR = numpy.zeros((Na, Na, Na, Na), dtype=numpy.complex128)
         
